@@ -11,6 +11,7 @@ namespace {
 struct Case {
     std::vector<uint8_t> bytes; // entropy: tree shape, contents and spelling choices
     int                  width{1};
+    int                  alias{0}; // 1: strings also hold look-alike code points (jm::look_alike_cps); absent in older replay files
 };
 
 struct Doc {
@@ -20,6 +21,10 @@ struct Doc {
 };
 
 Doc make_doc(const Case &c) {
+    jm::look_alike_cps() = (c.alias != 0);
+#ifdef VERIF_C07
+    jm::lone_low_surrogates() = (c.alias != 0);
+#endif
     jm::Entropy e(c.bytes);
     Doc         d;
     d.tree = jm::gen_tree(e, 6, true);
@@ -99,6 +104,10 @@ void run_width(const Case &c, pbt::Ctx &ctx) {
     }
     ctx.label("prefix-variants");
     // document followed by one non-whitespace unit
+    jm::look_alike_cps() = (c.alias != 0);
+#ifdef VERIF_C07
+    jm::lone_low_surrogates() = (c.alias != 0);
+#endif
     jm::Entropy e(c.bytes);
     e.pos = c.bytes.size() / 2;
     const uint32_t suffixes[] = {'x', ',', ']', '}', '[', '{', '"', '0', 0, ':', 'n', '-', 0x80 + e.below(0x70), 0x21 + e.below(0x5E)};
@@ -154,11 +163,12 @@ struct H {
 #endif
     static rc::Gen<Case> gen() {
         using namespace rc;
-        return gen::map(gen::tuple(gen::resize(250, gen::container<std::vector<uint8_t>>(gen::arbitrary<uint8_t>())), pbt::pick<int>({1, 1, 2, 4})),
-                        [](std::tuple<std::vector<uint8_t>, int> t) {
+        return gen::map(gen::tuple(gen::resize(250, gen::container<std::vector<uint8_t>>(gen::arbitrary<uint8_t>())), pbt::pick<int>({1, 1, 2, 4}), pbt::pick<int>({0, 0, 1})),
+                        [](std::tuple<std::vector<uint8_t>, int, int> t) {
                             Case c;
                             c.bytes = std::get<0>(t);
                             c.width = std::get<1>(t);
+                            c.alias = std::get<2>(t);
                             return c;
                         });
     }
@@ -166,7 +176,9 @@ struct H {
     static bool from_fuzz(const uint8_t *d, size_t n, Case &c) {
         pbt::FuzzBytes f(d, n);
         static const int w[] = {1, 2, 4, 1};
-        c.width = w[f.sel() & 3];
+        const uint8_t sel = f.sel();
+        c.width = w[sel & 3];
+        c.alias = (sel >> 2) & 1;
         c.bytes = f.rest();
         return true;
     }
@@ -180,6 +192,7 @@ struct H {
         }
         kv.put("bytes", hex);
         kv.put("width", c.width);
+        kv.put("alias", c.alias);
         kv.put("doc", pbt::enc_units(make_doc(c).cps)); // derived, for the reader (and the python cross-check)
         return kv.text();
     }
@@ -191,6 +204,7 @@ struct H {
             c.bytes.push_back(uint8_t(strtoul(hex.substr(i, 2).c_str(), nullptr, 16)));
         }
         c.width = int(kv.geti("width", 1));
+        c.alias = int(kv.geti("alias", 0));
         return c;
     }
     static void run(const Case &c, pbt::Ctx &ctx) {
